@@ -21,9 +21,10 @@ CFG = {
         "Go harness (gates, stamps from one atomic counter, its own untrusted transcription of the LTS used to know what to wait for and to "
         "insert the unobservable labels Skip / Exit / select case), sync.Mutex / sync.Cond / channel / select semantics of the Go runtime "
         "(select = free choice among ready cases, fairness not modelled), the lock-discipline lint for q.Q and async.Q. "
-        "case_accept is defined as model_matches && case_holds, so case_sound is immediate; that the model itself satisfies every clause is "
-        "what the 31 unbounded theorems of C14_Props.v state (for NormalizeSlotIndex model_matches -> holds is proved: c14_slot_matches_holds); "
-        "a direct proof 'replay succeeds -> monitor holds' for schedule cases is PENDING. "
+        "case_accept = the observed trace is a complete run of the lane family in which every observation is what the model state says; "
+        "case_sound (accept -> monitor holds) is a real theorem: a simulation between the replayed family and the monitor state "
+        "(C14_Sound.v, 780 lines, all ten item kinds, FIFO with a runner's passed-over calls included); together with the 32 unbounded "
+        "theorems of C14_Props.v. "
         "Acceptance of a call is observed at the caller's first ctx.Done() after a successful enqueue (the executors call it on entering their "
         "select) - an implementation whose callers never consult their context would be reported as a hang. A callee panic kills a lane "
         "(no recover in the code): excluded by the statement. ProcChan with size 0 (unbuffered channel) is not exercised. "
@@ -50,6 +51,6 @@ CFG = {
         {"file": "syncx/pipe/q/q.go", "recv": "Q", "methods": ["AddReq", "Close", "pop"], "lock": "lock", "mode": "lock"},
         {"file": "syncx/pipe/async/q.go", "recv": "Q", "methods": ["Add", "Close", "pop"], "lock": "lock", "mode": "lock"},
     ],
-    "chunk": 120,
+    "chunk": 300,
     "harness_timeout": 1500,
 }
